@@ -204,10 +204,13 @@ impl Method for PhoneticMethod {
 /// Reads the user's auto correct entries from the `file`.
 /// Unreadable or damaged content is treated as an absent file.
 fn read_autocorrect(file: &mut File) -> HashMap<String, String, RandomState> {
-    read(file)
+    let mut entries: HashMap<String, String, RandomState> = read(file)
         .ok()
         .and_then(|content| serde_json::from_slice(&content).ok())
-        .unwrap_or_else(|| HashMap::with_hasher(RandomState::new()))
+        .unwrap_or_else(|| HashMap::with_hasher(RandomState::new()));
+    // A replacement with a NUL character in it can't be handed out as a C string, the entry is unusable.
+    entries.retain(|_, replacement| !replacement.contains('\0'));
+    entries
 }
 
 /// Last modification time of the `file`.
